@@ -32,4 +32,19 @@ int pthread_cond_wait (pthread_cond_t *c, pthread_mutex_t *m) { g_cwait++; g_c_h
 int pthread_cond_signal (pthread_cond_t *c)     { g_csignal++; g_c_hdl = c; return PT_RET; }
 int pthread_cond_broadcast (pthread_cond_t *c)  { g_cbroadcast++; g_c_hdl = c; return PT_RET; }
 int pthread_cond_destroy (pthread_cond_t *c)    { g_cdestroy++; g_c_hdl = c; return PT_RET; }
+/* pthread_rwlock_* (call-log stubs, appended for C02) */
+#ifndef VERIF_ENV_PTHREAD_RW
+#define VERIF_ENV_PTHREAD_RW
+unsigned g_rw_calls, g_rwinit, g_rdlock, g_wrlock, g_tryrd, g_trywr, g_rwunlock, g_rwdestroy; pthread_rwlock_t *g_rw_hdl; int g_rw_rc;
+#define RW_INIT (g_rw_calls == 0 && g_rwinit == 0 && g_rdlock == 0 && g_wrlock == 0 && g_tryrd == 0 && g_trywr == 0 && g_rwunlock == 0 && g_rwdestroy == 0)
+#define RW_GHOSTS g_rw_calls, g_rwinit, g_rdlock, g_wrlock, g_tryrd, g_trywr, g_rwunlock, g_rwdestroy, g_rw_hdl, g_rw_rc
+#define RW_RET (g_rw_calls++, g_rw_rc = nondet_int (), g_rw_rc)
+int pthread_rwlock_init (pthread_rwlock_t *l, const pthread_rwlockattr_t *a) { g_rwinit++; g_rw_hdl = l; return RW_RET; }
+int pthread_rwlock_rdlock (pthread_rwlock_t *l)    { g_rdlock++; g_rw_hdl = l; return RW_RET; }
+int pthread_rwlock_wrlock (pthread_rwlock_t *l)    { g_wrlock++; g_rw_hdl = l; return RW_RET; }
+int pthread_rwlock_tryrdlock (pthread_rwlock_t *l) { g_tryrd++; g_rw_hdl = l; return RW_RET; }
+int pthread_rwlock_trywrlock (pthread_rwlock_t *l) { g_trywr++; g_rw_hdl = l; return RW_RET; }
+int pthread_rwlock_unlock (pthread_rwlock_t *l)    { g_rwunlock++; g_rw_hdl = l; return RW_RET; }
+int pthread_rwlock_destroy (pthread_rwlock_t *l)   { g_rwdestroy++; g_rw_hdl = l; return RW_RET; }
+#endif
 #endif
